@@ -233,6 +233,28 @@ impl Elem for Tracked {
     }
 }
 
+/// A zero-sized element type with drop side effects: only counts can be observed.
+pub struct Zt;
+thread_local! {
+    pub static ZLIVE: std::cell::Cell<i64> = std::cell::Cell::new(0);
+}
+impl Zt {
+    pub fn new() -> Zt { ZLIVE.with(|c| c.set(c.get() + 1)); Zt }
+}
+impl Drop for Zt {
+    fn drop(&mut self) { ZLIVE.with(|c| c.set(c.get() - 1)); }
+}
+impl Clone for Zt { fn clone(&self) -> Zt { Zt::new() } }
+impl Default for Zt { fn default() -> Zt { Zt::new() } }
+impl PartialEq for Zt { fn eq(&self, _: &Zt) -> bool { true } }
+impl Elem for Zt {
+    const TRACK: bool = true;
+    const ESZ: u64 = 0;
+    fn mk(_: u32) -> Zt { Zt::new() }
+    fn val(&self) -> u32 { 0 }
+    fn is_zombie(&self) -> bool { false }
+}
+
 // ---------------------------------------------------------------------------------------
 // Scripted caller-supplied iterator
 // ---------------------------------------------------------------------------------------
